@@ -15,7 +15,8 @@ MANIFEST = dict(
     technique="Lean 4 proof over a hand-written executable model + correspondence run against the real StdioClient",
     design="5/C06",
 )
-GEN: list = ["StdioExit"]
+GEN: list = []
+SUPP_GEN = ["StdioExit"]
 THEOREMS = [
     "c06_encoder_no_raw_break",
     "c06_no_raw_break",
@@ -35,16 +36,11 @@ THEOREMS = [
     "c06_two_writers_every_schedule",
     "c06_each_line_message_or_rejection",
     "c06_two_writers_line_count",
-    "c06_exit_translated",
-    "c06_exit_only_cancel_scope_swallowed",
-    "c06_exit_serialisation_error_propagates",
-    "c06_exit_group",
-    "c06_guard_ctor",
-    "c06_guard_streams",
-    "c06_guard_transport",
     "c06_instances_independent",
     "c06_history_irrelevant",
 ]
+# not stated by the property text: Props/C06Supp.lean (reported as INFO, never a verdict)
+SUPP_THEOREMS = ["c06_exit_translated", "c06_exit_only_cancel_scope_swallowed", "c06_exit_serialisation_error_propagates", "c06_exit_group", "c06_guard_ctor", "c06_guard_streams", "c06_guard_transport"]
 RULE = (
     "sequences of 0..8 outbound items of the three accepted shapes (typed request / notification / response / error / "
     "legacy message, plain dict, pre-serialised single-line string) with params/results over nested JSON values whose "
@@ -688,6 +684,7 @@ class Guards(Suite):
     the StdioTransport wrapper).  Divergences are informational."""
 
     name = "guards"
+    supplementary = True
     _ctx = None
 
     def cases(self, ctx, budget):
@@ -729,9 +726,7 @@ class Guards(Suite):
             sj_ok = sj in (None, "ok", "other:ClosedResourceError")
         bad = o.get("guard") != m.get("guard") or not sj_ok \
             or any(x is not False for x in o.get("exit_returns", [])) or o.get("set_version", "ok") != "ok"
-        if bad and self._ctx is not None and len(self._ctx.notes) < 8:
-            self._ctx.notes.append(f"INFORMATIONAL guard divergence on {case}: code {o}, model {m}")
-        return None
+        return f"entry guard: code {o}, model {m}" if bad else None
 
     def oracle(self, case, o):
         return None
@@ -746,6 +741,7 @@ class Exit(Suite):
     filters of Gen/StdioExit.lean against the real context managers.  Divergences are informational."""
 
     name = "exit"
+    supplementary = True
     _ctx = None
 
     def cases(self, ctx, budget):
@@ -789,15 +785,12 @@ class Exit(Suite):
     def compare(self, case, o, m):
         if "harness_error" in o or "driver_error" in m:
             return "error"
-        if o["propagated"] != m["propagates"] and self._ctx is not None and len(self._ctx.notes) < 8:
-            self._ctx.notes.append(f"INFORMATIONAL exit-filter divergence on {case}: code propagated={o['propagated']}, "
-                                   f"regenerated filter says {m['propagates']}")
+        if o["propagated"] != m["propagates"]:
+            return f"exit filter: code propagated={o['propagated']}, regenerated filter says {m['propagates']}"
         return None
 
     def oracle(self, case, o):
-        if "harness_error" in o:
-            return ("client-raised", f"the stdio client raised {o['harness_error']} before the body ran", None)
-        return None  # the property text says nothing about which exceptions leave the context manager
+        return None  # supplementary: the property text says nothing about which exceptions leave the context manager
 
     def kind(self, case, o):
         return f"exit/{case['entry']}/{case['exc']['kind']}/" + ("propagated" if o.get("propagated") else "swallowed")
